@@ -462,6 +462,10 @@ func (p *parser) readGpos2() *gtab.LookupTable {
 				}
 				gg := p.readGlyphList()
 				for _, g := range gg {
+					if class1Count > 0xFFFF {
+						// the class would not fit into a uint16
+						p.fatal("too many classes")
+					}
 					if _, ok := class1[g]; ok {
 						p.fatal("duplicate class for glyph %d", g)
 					}
@@ -486,6 +490,10 @@ func (p *parser) readGpos2() *gtab.LookupTable {
 				}
 				gg := p.readGlyphList()
 				for _, g := range gg {
+					if class2Count > 0xFFFF {
+						// the class would not fit into a uint16
+						p.fatal("too many classes")
+					}
 					if _, ok := class2[g]; ok {
 						p.fatal("duplicate class for glyph %d", g)
 					}
